@@ -32,6 +32,8 @@ type CandidatePair struct {
 	state                    CandidatePairState
 	nominated                bool
 	nominateOnBindingSuccess bool
+	// Nomination value of the deferred (renomination) request, nil for plain USE-CANDIDATE.
+	nominationValueOnBindingSuccess *uint32
 
 	// stats
 	currentRoundTripTime int64 // in ns
